@@ -4,7 +4,7 @@
 P=$1; S=$2; B=$3
 D=/tmp/wt-$P/seed_out
 cd /verif
-tools/verify_seed.py $D 1 $P-s$S 2>&1 | grep -v '^WARNING'
-tools/verify_seed.py $D 2 $P-s$((S+1)) 2>&1 | grep -v '^WARNING'
-tools/verify_benign.py $D 1 $P-b$B 2>&1 | grep -v '^WARNING'
-tools/verify_benign.py $D 2 $P-b$((B+1)) 2>&1 | grep -v '^WARNING'
+/venv/bin/python tools/verify_seed.py $D 1 $P-s$S 2>&1 | grep -v '^WARNING'
+/venv/bin/python tools/verify_seed.py $D 2 $P-s$((S+1)) 2>&1 | grep -v '^WARNING'
+/venv/bin/python tools/verify_benign.py $D 1 $P-b$B 2>&1 | grep -v '^WARNING'
+/venv/bin/python tools/verify_benign.py $D 2 $P-b$((B+1)) 2>&1 | grep -v '^WARNING'
